@@ -116,6 +116,28 @@ def case_edits(W, cfg):
                             must_raise(W, "ufunc-unknown-boundary-word", lambda w=w: call(da, boundary=w, method=method), "ufunc boundary=%r" % w)
                 # a vector component keyed by an axis the grid lacks
                 must_raise(W, "axis-the-grid-lacks", lambda: grid.diff({"Q": da}, "X", to=to0), "diff of {'Q': component}")
+            if frm != "center" and valid_shift(frm, "center"):
+                # the two-component wrappers move a staggered vector to the cell centres: a component that already sits at
+                # the centre of its own axis is a same-position shift, any other target is one they cannot make
+                yfrm = "left"
+                ny = ds.sizes[ydims["center"]]
+                u_ok = xr.DataArray(W.data("u2", (ny, plen(frm, N))), dims=[ydims["center"], dims[frm]])
+                v_ok = xr.DataArray(W.data("v2", (ds.sizes[ydims[yfrm]], N)), dims=[ydims[yfrm], dims["center"]])
+                u_c = xr.DataArray(W.data("u3", (ny, N)), dims=[ydims["center"], dims["center"]])
+                for wname in ("diff_2d_vector", "interp_2d_vector"):
+                    wf = getattr(grid, wname)
+                    try:
+                        with warnings.catch_warnings():
+                            warnings.simplefilter("ignore")
+                            r = wf({"X": u_ok, "Y": v_ok})
+                        W.require("valid-call-answered", isinstance(r, dict) and set(r) == {"X", "Y"}, "%s of a staggered vector" % wname)
+                    except Exception as e:  # noqa
+                        W.require("valid-call-answered", False, "%s of a staggered vector raised %s: %s" % (wname, type(e).__name__, str(e)[:100]))
+                    must_raise(W, "same-position-shift", lambda: wf({"X": u_c, "Y": v_ok}), "%s with the X component already at centre" % wname)
+                    must_raise(W, "same-position-shift", lambda: wf({"X": u_ok, "Y": u_c}), "%s with the Y component already at centre" % wname)
+                    must_raise(W, "same-position-shift", lambda: wf({"X": u_c, "Y": u_c}), "%s with both components at centre" % wname)
+                    must_raise(W, "shift-the-axis-cannot-make", lambda: wf({"X": u_ok, "Y": v_ok}, to=frm), "%s to=%s" % (wname, frm))
+                    must_raise(W, "axis-the-grid-lacks", lambda: wf({"X": u_ok, "Q": v_ok}), "%s with a component keyed 'Q'" % wname)
             for op in ("diff", "interp", "min", "max", "cumsum"):
                 f = getattr(grid, op)
                 # a valid call exists for this source position?
